@@ -1,29 +1,141 @@
 //! C11: coalesce.
-//! script = [n, (op a b)*]  callers 0..n-1
+//! script = [h, (op a b)*]  callers 0..n-1 with n = h % 100 (h < 0: none); f = h / 100 selects how the
+//! layer is built and how the service value is shared between the calls:
+//!   f % 4      : 0 every call goes through a fresh clone of one base service, 1 every call is made on the
+//!                base value itself, 2 every call is made on a clone of the value used by the previous call
+//!                (a chain of clones), 3 the calls alternate between the base value and one long-lived clone
+//!   (f / 4) % 2: 1 = the key type hashes every key to the same bucket (only `Eq` tells keys apart)
+//!   (f / 8) % 2: 1 = the layer is built with CoalesceLayer::builder(..).name(..).build()
 //!   op 1 Poll a | 2 Drop a | 4 Complete a b (0 ok, 1 err, 2 panic) | 5 Call a with key b
+//!   op 6 Arm a: the next Clone of a value (Ok or Err) produced by caller a's inner call panics (once)
+//!   op 7 CallPanic a b: like 5, but the inner service's call() panics if this request reaches it
 //! Caller a's request is the integer a; the key extractor looks the key up in a table filled
 //! by the Call event.  The inner service answers request a with the value a (Ok(a) / Err(a)),
 //! so every outer result names the inner call it came from.
-//! trace per event = [r, val, wake mask, mask of callers whose inner call is in flight]
+//! trace per event = [r, val, wake mask, mask of callers whose inner call is in flight, mask of armed Clone panics]
+//!   r: -1 nothing to report, 0 pending, 1 Ok, 2 Err(Service), 3 LeaderCancelled, 4 RecvError,
+//!      5 panicked (the poll, or for op 7 the call itself), 9 nothing to poll
+use std::future::Future;
+use std::hash::{Hash, Hasher};
+use std::pin::Pin;
 use std::sync::{Arc, Mutex};
+use std::task::{Context, Poll};
 use tower::{Layer, Service};
 use tower_resilience_coalesce::{CoalesceError, CoalesceLayer};
 use verif_harness::*;
 
-type Res = Result<i128, CoalesceError<i128>>;
+/// switches the script flips: which requests make `inner.call()` panic, whose values have a panicking Clone
+struct Ctl {
+    call_panic: Mutex<Vec<bool>>,
+    bomb: Mutex<Vec<bool>>,
+}
+
+/// response and error type of the inner service: the value names the inner call that produced it
+struct Val {
+    v: i128,
+    ctl: Arc<Ctl>,
+}
+
+impl Clone for Val {
+    fn clone(&self) -> Self {
+        let armed = {
+            let mut b = self.ctl.bomb.lock().unwrap();
+            match b.get_mut(self.v as usize) {
+                Some(x) => std::mem::replace(x, false),
+                None => false,
+            }
+        };
+        if armed {
+            panic!("scripted Clone panic");
+        }
+        Val { v: self.v, ctl: self.ctl.clone() }
+    }
+}
+
+/// the scripted inner service (gates, start/finish/drop log) with the two extra faults
+#[derive(Clone)]
+struct Inner {
+    g: GatedInner,
+    ctl: Arc<Ctl>,
+}
+
+impl Service<i128> for Inner {
+    type Response = Val;
+    type Error = Val;
+    type Future = Pin<Box<dyn Future<Output = Result<Val, Val>> + Send>>;
+    fn poll_ready(&mut self, _cx: &mut Context<'_>) -> Poll<Result<(), Val>> {
+        Poll::Ready(Ok(()))
+    }
+    fn call(&mut self, req: i128) -> Self::Future {
+        let p = {
+            let mut c = self.ctl.call_panic.lock().unwrap();
+            std::mem::replace(&mut c[req as usize], false)
+        };
+        if p {
+            panic!("scripted panic in inner.call()");
+        }
+        let f = self.g.call(req);
+        let ctl = self.ctl.clone();
+        Box::pin(async move {
+            match f.await {
+                Ok(v) => Ok(Val { v, ctl }),
+                Err(e) => Err(Val { v: e, ctl }),
+            }
+        })
+    }
+}
+
+trait Key: Hash + Eq + Clone + Send + Sync + 'static {
+    fn mk(k: i128) -> Self;
+}
+impl Key for i128 {
+    fn mk(k: i128) -> Self { k }
+}
+/// every key lands in the same bucket of a hash map; equality is by value
+#[derive(Clone, PartialEq, Eq)]
+struct Collide(i128);
+impl Hash for Collide {
+    fn hash<H: Hasher>(&self, h: &mut H) { h.write_u8(7); }
+}
+impl Key for Collide {
+    fn mk(k: i128) -> Self { Collide(k) }
+}
+
+type Res = Result<Val, CoalesceError<Val>>;
 
 fn run(s: &[i128]) -> Vec<i128> {
-    let n = zn(s, 0).max(0) as usize;
+    let h = zn(s, 0);
+    let f = if h < 0 { 0 } else { h / 100 };
+    if (f / 4) % 2 == 1 { run_k::<Collide>(s) } else { run_k::<i128>(s) }
+}
+
+fn run_k<K: Key>(s: &[i128]) -> Vec<i128> {
+    let h = zn(s, 0);
+    let n = if h < 0 { 0 } else { (h % 100) as usize };
+    let f = if h < 0 { 0 } else { h / 100 };
+    let share = f % 4;
+    let via_builder = (f / 8) % 2 == 1;
     let rt = paused_rt();
     rt.block_on(async move {
-        let inner = GatedInner::new();
-        let sh = inner.0.clone();
+        let g = GatedInner::new();
+        let sh = g.0.clone();
+        let ctl = Arc::new(Ctl { call_panic: Mutex::new(vec![false; n]), bomb: Mutex::new(vec![false; n]) });
+        let inner = Inner { g, ctl: ctl.clone() };
         let keys: Arc<Mutex<Vec<i128>>> = Arc::new(Mutex::new(vec![0; n]));
         let k2 = keys.clone();
-        let layer = CoalesceLayer::new(move |req: &i128| k2.lock().unwrap()[*req as usize]);
-        // one CoalesceService (one in-flight map); every call goes through a clone of it
-        let base = layer.layer(inner);
+        let extract = move |req: &i128| K::mk(k2.lock().unwrap()[*req as usize]);
+        let layer = if via_builder {
+            CoalesceLayer::builder(extract).name("c11").build()
+        } else {
+            CoalesceLayer::new(extract)
+        };
+        // one CoalesceService (one in-flight map); `share` says through which value(s) the calls go
+        let mut base = layer.layer(inner);
+        let mut other = base.clone();
+        let mut prev = base.clone();
+        let mut ncalls = 0usize;
         let mut callers: Vec<Option<Manual<Res>>> = (0..n).map(|_| None).collect();
+        let mut called = vec![false; n];
         let mut started = vec![false; n];
         let mut tr = Vec::new();
         for c in s[1.min(s.len())..].chunks(3).filter(|c| c.len() == 3) {
@@ -33,15 +145,32 @@ fn run(s: &[i128]) -> Vec<i128> {
             let mut r: i128 = -1;
             let mut val: i128 = -1;
             match op {
-                5 => {
-                    if callers[i].is_none() {
+                5 | 7 => {
+                    if !called[i] {
+                        called[i] = true;
                         keys.lock().unwrap()[i] = b.max(0);
-                        let mut svc = base.clone();
+                        ctl.call_panic.lock().unwrap()[i] = op == 7;
+                        let mut fresh;
+                        let svc = match share {
+                            1 => &mut base,
+                            2 => { prev = prev.clone(); &mut prev }
+                            3 => { if ncalls % 2 == 0 { &mut base } else { &mut other } }
+                            _ => { fresh = base.clone(); &mut fresh }
+                        };
+                        ncalls += 1;
                         futures::future::poll_fn(|cx| svc.poll_ready(cx)).await.ok();
-                        let mut m = Manual::new(svc.call(a));
-                        // a finished call future stays alive until the script drops it (late drop)
-                        m.keep_done = true;
-                        callers[i] = Some(m);
+                        // a panic in call() is contained the way a task boundary contains it
+                        match std::panic::catch_unwind(std::panic::AssertUnwindSafe(|| svc.call(a))) {
+                            Ok(fut) => {
+                                let mut m = Manual::new(fut);
+                                // a finished call future stays alive until the script drops it (late drop)
+                                m.keep_done = true;
+                                callers[i] = Some(m);
+                            }
+                            Err(_) => r = 5,
+                        }
+                        // a waiter never reaches inner.call(): the switch does not outlive this call
+                        ctl.call_panic.lock().unwrap()[i] = false;
                     }
                 }
                 1 => {
@@ -50,8 +179,8 @@ fn run(s: &[i128]) -> Vec<i128> {
                             let fin = m.poll();
                             r = if !fin { 0 } else if m.panicked { 5 } else {
                                 match m.done.take().unwrap() {
-                                    Ok(v) => { val = v; 1 }
-                                    Err(CoalesceError::Service(e)) => { val = e; 2 }
+                                    Ok(v) => { val = v.v; 1 }
+                                    Err(CoalesceError::Service(e)) => { val = e.v; 2 }
                                     Err(CoalesceError::LeaderCancelled) => 3,
                                     Err(CoalesceError::RecvError) => 4,
                                 }
@@ -69,6 +198,9 @@ fn run(s: &[i128]) -> Vec<i128> {
                 4 => {
                     sh.complete(a, 0, match b { 0 => Outcome::Ok(a), 1 => Outcome::Err(a), _ => Outcome::Panic });
                 }
+                6 => {
+                    ctl.bomb.lock().unwrap()[i] = true;
+                }
                 _ => continue,
             }
             settle().await;
@@ -84,7 +216,11 @@ fn run(s: &[i128]) -> Vec<i128> {
                 let jj = j as i128;
                 if started[j] && !fin.contains(&jj) && !drp.contains(&jj) { fl += 1i128 << j; }
             }
-            tr.extend([r, val, mask, fl]);
+            let mut bm: i128 = 0;
+            for (j, x) in ctl.bomb.lock().unwrap().iter().enumerate() {
+                if *x { bm += 1i128 << j; }
+            }
+            tr.extend([r, val, mask, fl, bm]);
         }
         tr
     })
